@@ -118,14 +118,54 @@ func init() {
 			}, nil
 		}
 	}
+	// a registered derived profile with stricter rules: "conforms to the profile it declares" means ITS rules
+	Scenarios["c04.derived-profile"] = func() (choice.Scenario, func() any) {
+		g := newCoarseGen(2, 2)
+		return func(c *choice.Ctx) {
+			a := g.gen(c, "")
+			if a.ProfileInvalid {
+				return
+			}
+			a.Canon = ExtStrictName
+			if a.Profile != nil && *a.Profile == refmodel.P2Name {
+				a.Profile = sp(ExtStrictName)
+			}
+			want := a.Valid() && a.ClientID != nil && *a.ClientID >= 0 && a.CertRef == nil && a.BootSeed != nil
+			wire := mcbor.Encode(wireTree(a, true))
+			c04stats.State(wire)
+			var cl psatoken.IClaims
+			var err error
+			if p, v := safely(func() { cl, err = psatoken.DecodeAndValidateClaimsFromCBOR(wire) }); p {
+				c.Failf("C04:panic:derived-profile", "%v\n%x", v, wire)
+				return
+			}
+			c04stats.Trans.Add(1)
+			switch {
+			case want && err != nil:
+				c.Failf("C04:rejected:derived-profile", "token conforming to the registered derived profile rejected: %v\n%s", err, a.String())
+			case !want && err == nil:
+				why := "derived-profile-rule"
+				if !a.Valid() {
+					why = a.Check().String()
+				}
+				c.Failf("C04:accepted:derived-profile:"+why, "token violating the rules of the registered profile it declares was accepted (%T)\n%s", cl, a.String())
+			case want:
+				if _, ok := cl.(*ExtStrictClaims); !ok {
+					c.Failf("C04:type:derived-profile", "decoded as %T", cl)
+				}
+			}
+			c04stats.Outcome(fmt.Sprintf("derived-profile:%v", want))
+		}, nil
+	}
 	Checks["C04"] = func(r *evid.Run) {
 		registerStandardExt()
 		c04stats = NewStats()
 		dl := deadline(r, 50*time.Second, 15*time.Minute)
-		bound := 1
+		bound := 2
 		if thorough(r) {
-			bound = 2
+			bound = 3
 		}
+		exploreChoice(r, "c04.derived-profile", bound, dl)
 		for _, p := range []int{1, 2} {
 			exploreChoiceOpts(r, fmt.Sprintf("c04.after-prior-calls.p%d", p), 2, dl, 1)
 		}
